@@ -115,7 +115,7 @@ let () =
                  | OCks (t, lg) -> Printf.sprintf "cks %s %s" (si t) (log_s lg)
                  | ORel lg -> "rel " ^ log_s lg
                  | ODone rt -> if a.(0) = "flip" then "flip" else if a.(0) = "poison" then "poison" else if rt then "done retry" else "done"
-                 | OCrash lg -> Printf.sprintf "crash %s live=%s store=%s" (log_s lg) (sessions_s proto s'.live)
+                 | OCrash lg -> Printf.sprintf "crash %s start=ok live=%s store=%s" (log_s lg) (sessions_s proto s'.live)
                                   (sessions_s proto s'.store) in
                outs := txt :: !outs)) ops;
         let st = !s in
